@@ -45,7 +45,8 @@ def gen_pair(rng, i):
         decls.append("%%avoid_insert '%s'" % rng.choice(toks))
     if rng.random() < 0.3:
         decls.append("%%epp '%s' \"tok %s\"" % (toks[0], toks[0]))
-    opts = dict(recoverer=rng.choice(["cpctplus", "cpctplus", "none"]), sformat=rng.choice(["fixed", "variable"]),
+    # 8 consecutive pairs cover yacc kind x recoverer
+    opts = dict(recoverer=["cpctplus", "none"][(i // 4) % 2], sformat=rng.choice(["fixed", "variable"]),
                 edition=rng.choice(["2021", "2018", "2015"]), vis=rng.choice(["private", "public", "crate"]),
                 via_header=rng.random() < 0.4,
                 case_insensitive=rng.random() < 0.25, lex_header=rng.random() < 0.5)
@@ -75,6 +76,80 @@ def buildable(pairs, wd):
         if "ERR" in e["digest"] or "PANIC" in e["digest"]:
             bad.add(e["id"])
     return [p for p in pairs if p["id"] not in bad]
+
+
+LEXFLAGS = ["dot_matches_new_line", "multi_line", "swap_greed", "ignore_whitespace", "case_insensitive"]
+FLAG_L = "%%\na a+ 'AA'\nb. 'BD'\nc$ 'CE'\n^d 'DS'\ne+ 'EP'\n[a-z] 'ANY'\n[\\t\\x20]+ ;\n\\n ;\n"
+FLAG_INPUTS = ["aaa a aa a a", "b\nb c\nc c", "d\nd d", "eee e", "AAA B\n CE", "a  a", "bb b\n", "c c\n", "E eE", "a aa a", "bc\nd"]
+
+
+def lex_names(ltext):
+    import re
+    names = []
+    for line in ltext.split("\n"):
+        m = re.search(r"""(?:>|\s)['"]([^'"]+)['"]\s*$""", line)
+        if m and m.group(1) not in names:
+            names.append(m.group(1))
+    return names
+
+
+def hdr(flags):
+    return "%grmtools{" + ", ".join((k if v else "!" + k) for k, v in flags.items()) + "}\n"
+
+
+def lex_cases(rng, thorough):
+    """lexer-only CT vs RT: every flag x both values x given in the section / through the builder,
+    section + builder together (the builder wins), and start-state machines with every kind of
+    target operation"""
+    from . import p_lex
+    cases = []
+    for f in LEXFLAGS:
+        for v in (True, False):
+            for via in ("header", "builder"):
+                cases.append(dict(l=(hdr({f: v}) if via == "header" else "") + FLAG_L, builder=({f: v} if via == "builder" else {}),
+                                  rt_l=hdr({f: v}) + FLAG_L, inputs=FLAG_INPUTS))
+    for _ in range(24 if thorough else 6):
+        hf = {f: rng.random() < 0.5 for f in rng.sample(LEXFLAGS, rng.randint(1, 3))}
+        bf = {f: rng.random() < 0.5 for f in rng.sample(LEXFLAGS, rng.randint(1, 3))}
+        merged = dict(hf)
+        merged.update(bf)
+        cases.append(dict(l=hdr(hf) + FLAG_L, builder=bf, rt_l=hdr(merged) + FLAG_L, inputs=FLAG_INPUTS))
+    sm = [i for i in p_lex.instances(rng.randrange(1 << 30), 0) if i["id"].startswith(("lexsm", "lex-fixed"))]
+    rng.shuffle(sm)
+    fixed = [i for i in sm if i["id"].startswith("lex-fixed")]
+    other = [i for i in sm if not i["id"].startswith("lex-fixed")]
+    for i in fixed + other[:(40 if thorough else 8)]:
+        cases.append(dict(l=i["l"], builder={}, rt_l=i["l"], inputs=i["inputs"][:12]))
+    for k, c in enumerate(cases):
+        c["id"] = "lx%d" % k
+        c["names"] = lex_names(c["l"])
+    return cases
+
+
+def lex_crate_parts(d, cases):
+    """-> (build.rs lines, main.rs include lines, main body lines)"""
+    build, incl, body = [], [], []
+    for c in cases:
+        with open(os.path.join(d, "src", c["id"] + ".l"), "w") as f:
+            f.write(c["l"])
+        with open(os.path.join(d, "src", c["id"] + ".rt.l"), "w") as f:
+            f.write(c["rt_l"])
+        ins = "".join("m.insert(%s.to_string(), %du32); " % (json.dumps(n), k) for k, n in enumerate(c["names"]))
+        fl = "".join(".%s(%s)" % (f, "true" if v else "false") for f, v in c["builder"].items())
+        build.append('    { let mut m = std::collections::HashMap::new(); %sCTLexerBuilder::new().rule_ids_map(m)%s'
+                     '.lexer_path("src/%s.l").output_path(format!("{}/%s.l.rs", out)).build().unwrap(); }' % (ins, fl, c["id"], c["id"]))
+        incl.append('include!(concat!(env!("OUT_DIR"), "/%s.l.rs"));' % c["id"])
+        body.append("    if !threaded {")
+        body.append('        let ct = %s_l::lexerdef();' % c["id"])
+        body.append('        let mut rtdef = LRNonStreamingLexerDef::<DefaultLexerTypes<u32>>::from_str(include_str!("%s.rt.l")).unwrap();' % c["id"])
+        body.append("        let map: HashMap<&str, u32> = vec![%s].into_iter().collect();" % ", ".join("(%s, %du32)" % (json.dumps(n), k) for k, n in enumerate(c["names"])))
+        body.append("        rtdef.set_rule_ids(&map);")
+        body.append("        for input in %s {" % json.dumps(c["inputs"]))
+        body.append('            let a = lexemes_str(&ct.lexer(input)); let b = lexemes_str(&rtdef.lexer(input));')
+        body.append('            emit("%s", input, (a, "LEXONLY".to_string(), "[]".to_string()), (b, "LEXONLY".to_string(), "[]".to_string()));' % c["id"])
+        body.append("        }")
+        body.append("    }")
+    return build, incl, body
 
 
 def action_text(pair, pid, rhs):
@@ -285,7 +360,7 @@ fn emit_consts(id: &str, what: &str, ct: String, rt: String) {
 '''
 
 
-def gen_crate(d, pairs, inputs):
+def gen_crate(d, pairs, inputs, lexcases=()):
     shutil.rmtree(d, ignore_errors=True)
     os.makedirs(os.path.join(d, "src"))
     os.makedirs(os.path.join(d, ".cargo"))
@@ -396,12 +471,50 @@ def gen_crate(d, pairs, inputs):
         nr = ", ".join('format!("%s={}", grm.token_idx("%s").map(|x| usize::from(x) as i64).unwrap_or(-1))' % (t, t) for t in p["toks"])
         body.append('        emit_consts("%s", "token constants", vec![%s].join(","), vec![%s].join(","));' % (p["id"], nc, nr))
         body.append("    }")
+    lb_, li_, lbody_ = lex_crate_parts(d, lexcases)
+    build += lb_
+    main += li_
+    body += lbody_
     build.append("}")
     body.append("}")
     with open(os.path.join(d, "build.rs"), "w") as f:
         f.write("\n".join(build) + "\n")
     with open(os.path.join(d, "src", "main.rs"), "w") as f:
         f.write("\n".join(main) + "\n" + "\n".join(body) + "\n")
+
+
+def run_lex_flags(res, prop, tier):
+    """C11: `flags given through the builder are the ones in force' for the compile-time builder:
+    every CTLexerBuilder flag setter (and %grmtools section + setter together) against the run-time
+    lexer built from the same text with the flags written in its section"""
+    seed = core.seed()
+    rng = random.Random(seed * 31 + 11)
+    cases = [c for c in lex_cases(rng, tier == "thorough") if c["l"].endswith(FLAG_L)]
+    d = os.path.join(res.wd, "ctgen")
+    gen_crate(d, [], {}, cases)
+    b = subprocess.run(["cargo", "build", "--offline", "--quiet"], cwd=d, env=dict(os.environ, CARGO_NET_OFFLINE="true"),
+                       stdout=subprocess.PIPE, stderr=subprocess.STDOUT, text=True)
+    if b.returncode != 0:
+        res.violation("compile-time lexers did not build: " + b.stdout[-1200:], dict(seed=seed))
+        return
+    r = subprocess.run([os.path.join(core.HARNESS, "target", "debug", "ctgen")], cwd=d, stdout=subprocess.PIPE, stderr=subprocess.PIPE, text=True, timeout=600)
+    lines = [x + "\n" for x in r.stdout.splitlines() if x.startswith("{")]
+    if r.returncode != 0 or not lines:
+        res.violation("the generated lexers crashed: " + r.stderr[-800:], dict(seed=seed))
+        return
+    v = p_src.validate(res, "TraceCTRT", 77, lines, dict(PROP=prop))
+    res.add_tlc(v["r"])
+    byid = {c["id"]: c for c in cases}
+    for dv in v["devs"]:
+        res.deviation(dv, dict(instance=byid.get(dv["inst"]), seed=seed))
+    if v["consumed"] != v["nlines"] and not v["r"]["timeout"]:
+        res.violation("trace rejected by the specification", dict(tlc_out=v["r"]["out"][-1500:]))
+    distinct = len(set(json.loads(x)["ct"]["lexemes"] for x in lines if json.loads(x)["input"] == FLAG_INPUTS[1]))
+    if distinct < 3:
+        raise core.ToolError("flag cases are not distinguishing (vacuous)")
+    res.notes["ct_builder_flag_cases"] = len(cases)
+    res.cov["traces_validated_against_impl"] += len(lines)
+    shutil.rmtree(d, ignore_errors=True)
 
 
 def main(pid, tier, replay=None):
@@ -414,7 +527,8 @@ def main(pid, tier, replay=None):
     pairs = buildable([fix_pair(p) for p in pairs], res.wd)[:n]
     inputs = {p["id"]: gen_inputs(p, rng, 80 if tier == "thorough" else 28) for p in pairs}
     d = os.path.join(res.wd, "ctgen")
-    gen_crate(d, pairs, inputs)
+    lexcases = lex_cases(rng, tier == "thorough")
+    gen_crate(d, pairs, inputs, lexcases)
     env = dict(os.environ, CARGO_NET_OFFLINE="true")
     b = subprocess.run(["cargo", "build", "--offline", "--quiet"], cwd=d, env=env, stdout=subprocess.PIPE, stderr=subprocess.STDOUT, text=True)
     if b.returncode != 0:
@@ -441,6 +555,8 @@ def main(pid, tier, replay=None):
     v = p_src.validate(res, "TraceCTRT", 0, lines, {})
     res.add_tlc(v["r"])
     byid = {p["id"]: dict(id=p["id"], kind=p["kind"], opts=p["opts"], y=render_pair(p)[0], l=render_pair(p)[1]) for p in pairs}
+    byid.update({c["id"]: c for c in lexcases})
+    res.notes["lexer_only_cases"] = len(lexcases)
     for dv in v["devs"]:
         res.deviation(dv, dict(instance=byid.get(dv["inst"]), seed=seed))
     if v["consumed"] != v["nlines"] and not v["r"]["timeout"]:
